@@ -484,6 +484,10 @@ def r2_cases(rng, tier, seed):
         sp = gen_seed_spec(rng, 2 * k + 3 + seed, 'corr')
         if seed_setup(sp)[2] is not None:
             out.append(seed_case(sp))
+    c15 = C()
+    for i, n in enumerate([2, 3, 4, 5, 8, 9, 16, 17, 31, 64, 65] + [rng.randint(6, 130) for _ in range({'quick': 4, 'thorough': 30}[tier])]):
+        unit = c15.UNITS[(i + seed) % 3]
+        out.append(shift_case(n, unit, c15.GOOD_IV[unit][i % 3], c15.T0S[i % 6]))
     return [c for c in out]
 
 
@@ -945,6 +949,96 @@ def reader_failure_experiments(rng):
     return fails
 
 
+# ------------------------------------------------------------------ complex-valued recordings (both parities, 1-d / 2-d / 3-d)
+CX_SPECTRA = ['psd', 'periodogram', 'spectrum_fourier', 'spectrum_multi_taper']
+
+
+def complex_experiments(spec, rng):
+    """complex-valued input series of even and odd length, 1-d / 2-d / 3-d, for every analyzer output that accepts them:
+    (a) the multi-channel result, channel by channel, equals the result for that channel alone (no channel is moved);
+    (b) spectrum_fourier equals the DFT evaluated AT THE REPORTED FREQUENCIES (brute force, independent of any fft ordering);
+    (c) a planted complex exponential at f0 < 0 peaks at the reported frequency f0 (mod Fs; periodogram / multi-taper report 0..Fs);
+    (d) filter / normalisation outputs: channel by channel = that channel alone."""
+    c15 = C()
+    TS, A = c15.nt(), c15.na()
+    fails, seen = [], set()
+    meta = {'op': 'complex', 'spec': spec}
+
+    def fail(key, what):
+        if key not in seen:
+            seen.add(key)
+            fails.append(Failure('complex/' + key, what + ' [unit=%s interval=%r t0=%r]' % (spec['unit'], spec['iv'], spec['t0']), {'meta': meta}))
+    rs = np.random.RandomState(spec['seed'])
+    kw = dict(sampling_interval=spec['iv'], time_unit=spec['unit'], t0=spec['t0'])
+    nreads = 0
+    for n in (spec['n_even'], spec['n_even'] + 1):
+        par = 'odd' if n % 2 else 'even'
+        for shape, dim in (((n,), '1d'), ((3, n), '2d'), ((2, 2, n), '3d')):
+            lead = shape[:-1]
+            nchan = int(np.prod(lead)) if lead else 1
+            k0 = -(3 + spec['seed'] % 5)
+            t = np.arange(n)
+            gains = (1.0 + np.arange(nchan)).reshape(lead + (1,)) if lead else 1.0
+            d = gains * np.exp(2j * np.pi * k0 * t / n) + 0.05 * (rs.randn(*shape) + 1j * rs.randn(*shape))
+            T = TS.TimeSeries(d, **kw)
+            Fs = 10.0**12 / c15.axis_of(T)['dt']
+            f0 = Fs * k0 / n
+            for g in CX_SPECTRA:
+                st, v = c15.read(A.SpectralAnalyzer(T), g)
+                nreads += 1
+                if st != 'ok':
+                    continue            # an analyzer that refuses complex data makes no claim
+                f, S = np.asarray(v[0], dtype=float), np.asarray(v[1])
+                if S.shape[:-1] != lead or S.shape[-1] != f.shape[0]:
+                    fail('%s/%s-%s/shape' % (g, dim, par), 'SpectralAnalyzer.%s of complex data %s: frequencies %s, values %s' % (g, list(shape), list(f.shape), list(S.shape)))
+                    continue
+                for ci in (np.ndindex(*lead) if lead else [()]):
+                    x = d[ci]
+                    s1_, v1 = c15.read(A.SpectralAnalyzer(TS.TimeSeries(np.array(x, copy=True), **kw)), g)
+                    if s1_ != 'ok':
+                        continue
+                    f1, S1 = np.asarray(v1[0], dtype=float), np.asarray(v1[1])
+                    if lead and (not c15.close(f, f1, 1e-9) or not c15.close(S[ci], S1, 1e-8)):
+                        fail('%s/%s-%s/channel-order' % (g, dim, par), 'SpectralAnalyzer.%s of complex %s data: channel %s of the result is not the result for that channel alone '
+                             '(every channel must stay where it is)' % (g, dim, list(ci)))
+                    row = S[ci]
+                    if g == 'spectrum_fourier':
+                        want = np.array([np.sum(x * np.exp(-2j * np.pi * fk * t / Fs)) for fk in f])
+                        if not c15.close(S1, want, 1e-8):
+                            fail('%s/%s/value-at-reported-frequency' % (g, par), 'spectrum_fourier of a complex series with an %s number of samples: the value reported for frequency f is not '
+                                 'sum_t x[t] exp(-2 pi i f t / Fs) (the spectrum is shifted against its frequency axis)' % par)
+                    fp = f1[int(np.argmax(np.abs(S1)))]
+                    bw = abs(f1[1] - f1[0]) if len(f1) > 1 else Fs
+                    dist = abs((fp - f0 + Fs / 2) % Fs - Fs / 2)
+                    if dist > (4.6 if g == 'spectrum_multi_taper' else 0.51) * bw + 1e-9 * Fs:         # multi-taper: the peak is NW = 4 bins wide and flat
+                        fail('%s/%s/peak-frequency' % (g, par), 'SpectralAnalyzer.%s: a complex exponential at %g Hz peaks at the reported frequency %g Hz (Fs = %g Hz, %s length)' % (g, f0, fp, Fs, par))
+                    del row
+            # (d) other analyzers that take complex recordings: channel by channel
+            if dim == '2d':
+                fs_new = float(T.sampling_rate)
+                for name, outs in (('NormalizationAnalyzer', ['z_score']), ('FilterAnalyzer', ['filtered_boxcar', 'fir', 'iir', 'filtered_fourier']),
+                                   ('CorrelationAnalyzer', ['corrcoef'])):
+                    for g in outs:
+                        try:
+                            st, v = c15.read(c15.hist_analyzer(name, T, fs_new), g)
+                        except Exception:  # noqa
+                            continue
+                        nreads += 1
+                        if st != 'ok':
+                            continue
+                        if name == 'CorrelationAnalyzer':
+                            want = np.corrcoef(d)
+                            if not c15.close(np.asarray(v), want, 1e-8):
+                                fail('%s/%s/%s/value' % (name, g, par), 'CorrelationAnalyzer.corrcoef of complex data differs from np.corrcoef')
+                            continue
+                        R = np.asarray(v.data)
+                        for c in range(shape[0]):
+                            s1_, v1 = c15.read(c15.hist_analyzer(name, TS.TimeSeries(np.array(d[c:c + 1], copy=True), **kw), fs_new), g)
+                            if s1_ == 'ok' and not c15.close(R[c], np.asarray(v1.data)[0], 1e-8):
+                                fail('%s/%s/%s/channel' % (name, g, par), '%s.%s of complex data: channel %d differs from the result for that channel alone' % (name, g, c))
+    return fails, nreads
+
+
 def r2_oracle(rng, tier, seed):
     c15 = C()
     fails = []
@@ -973,6 +1067,15 @@ def r2_oracle(rng, tier, seed):
             sp = gen_seed_spec(rng, k + seed, which)
             if seed_setup(sp)[2] is None:
                 fails += judge_seed(Case('', '', '', meta={'op': 'seedrows', 'spec': sp}))
+    for j in range({'quick': 2, 'thorough': 8}[tier]):
+        unit = c15.UNITS[(seed + j) % 3]
+        cs = dict(unit=unit, iv=c15.GOOD_IV[unit][(seed + j) % 3], t0=c15.T0S[(seed + j) % len(c15.T0S)], seed=rng.randrange(10**6), n_even=[64, 96, 50, 128][(seed + j) % 4])
+        try:
+            fl, nr = complex_experiments(cs, rng)
+        except Exception as e:  # noqa
+            fl, nr = [Failure('complex/experiment-raises', 'the experiment raised %r' % e, {'meta': {'op': 'complex', 'spec': cs}})], 0
+        fails += fl
+        stats['complex_reads'] = stats.get('complex_reads', 0) + nr
     for nm, fn in (('concatenate_time_series/alias', concat_alias_experiments), ('time_series_from_file/failure', reader_failure_experiments)):
         try:
             fails += fn(rng)
@@ -985,7 +1088,45 @@ def r2_oracle(rng, tier, seed):
     return fails, stats
 
 
-R2_JUDGES = {'objhist': judge_objhist, 'seedrows': judge_seed}
+
+def shift_case(n, unit, iv, t0):
+    """which DFT bin every position of SpectralAnalyzer.spectrum_fourier (complex input) shows: the recording is built so that
+    bin b of its DFT has the real amplitude b + 1"""
+    c15 = C()
+    x = np.fft.ifft(1j * (1.0 + np.arange(n)))          # non-zero imaginary parts: the analyzer's complex branch is value-based
+    T = c15.nt().TimeSeries(x.astype(complex), sampling_interval=iv, time_unit=unit, t0=t0)
+    st, v = c15.read(c15.na().SpectralAnalyzer(T), 'spectrum_fourier')
+    if st != 'ok':
+        impl = 'err ' + str(v)
+    else:
+        S = np.asarray(v[1])
+        impl = 'ok ' + ','.join(str(int(round(abs(a))) - 1) for a in S) if S.shape == (n,) else 'err shape %s' % (list(S.shape),)
+    return Case('C15 shiftsrc %d' % n, impl, 'SpectralAnalyzer/spectrum_fourier/complex/bin-order', meta={'op': 'shiftsrc', 'n': n, 'unit': unit, 'iv': iv, 't0': t0},
+                nontrivial=True)
+
+
+def judge_shift(c):
+    """independent: the value at position k must be the DFT evaluated at the REPORTED frequency f[k]"""
+    c15 = C()
+    m = c.meta
+    n = m['n']
+    x = np.fft.ifft(1j * (1.0 + np.arange(n)))
+    T = c15.nt().TimeSeries(x, sampling_interval=m['iv'], time_unit=m['unit'], t0=m['t0'])
+    st, v = c15.read(c15.na().SpectralAnalyzer(T), 'spectrum_fourier')
+    if st != 'ok':
+        return []
+    f, S = np.asarray(v[0], dtype=float), np.asarray(v[1])
+    Fs = 10.0**12 / c15.axis_of(T)['dt']
+    t = np.arange(n)
+    want = np.array([np.sum(x * np.exp(-2j * np.pi * fk * t / Fs)) for fk in f])
+    if S.shape != want.shape or not c15.close(S, want, 1e-8):
+        return [Failure('complex/spectrum_fourier/%s/value-at-reported-frequency' % ('odd' if n % 2 else 'even'),
+                        'spectrum_fourier of a complex series of %d samples: the value reported for frequency f is not sum_t x[t] exp(-2 pi i f t / Fs)' % n,
+                        {'meta': m}, case=c if c.line else None)]
+    return []
+
+
+R2_JUDGES = {'objhist': judge_objhist, 'seedrows': judge_seed, 'shiftsrc': judge_shift}
 
 
 def r2_replay(m):
@@ -995,6 +1136,8 @@ def r2_replay(m):
         return failure_experiments(m['spec'], m['name'], rng)[0]
     if op == 'alias':
         return alias_experiments(m['spec'], m['name'], rng)[0]
+    if op == 'complex':
+        return complex_experiments(m['spec'], rng)[0]
     if op in ('concat-alias', 'reader-failure'):
         fn = concat_alias_experiments if op == 'concat-alias' else reader_failure_experiments
         try:
